@@ -18,6 +18,14 @@ def run(ctx):
             ctx.violations.append({"kind": "violation", "sig": "lb/rejected", "count": 1, "path": [],
                                    "detail": "decision %s of the recorded trace is not allowed by LB.tla (round-robin out of turn, a loop that is not least loaded, or a different loop for an address seen before): %s" % (r["prefix"], r.get("event"))})
         ctx.samples.append(open(t).read().splitlines()[:4])
+    # the acceptor of real engines: reactor-mode lives balancing Round-Robin (half of them over several listeners) must hand
+    # their connections out cyclically (TrLB.tla; Engine.tla with LB = "rr": RRBalanced), and every connection is opened on
+    # the loop it was handed to
+    from checks import system
+    vlib.tlc_model_check(ctx, "Engine", "Engine_rr.cfg", timeout=600)
+    t = system.record(ctx, "sys-rr", env={"VERIF_FORCE_LB": "rr"})
+    system.validate(ctx, t, ["TrLB"], "acceptor decisions of Round-Robin engines")
+    system.engine_traces(ctx, t, "round-robin engines")
     ctx.assumptions += ["the hash is treated as an unknown function: functional and in range is all that is required",
                         "least-connections is decided at quiescent points (counts do not change during a decision)",
                         "that callbacks run on the assigned loop is checked by the system-level traces (C05)"]
